@@ -106,7 +106,7 @@ def sema_ranges(ctx, failures):
             if (int(a), int(b)) not in ranges:
                 failures.append({"case": G.enc(r["text"]), "check": "sema_range_is_node_range",
                                  "detail": {"text": r["text"], "error": e, "what": "semantic diagnostic range is not the range of any node of the tree"},
-                                 "guards": set(), "model_agrees": r["agree"] is not False,
+                                 "guards": set(), "model_agrees": r["agree"] is True,
                                  "replay_how": "echo '<input>' | /verif/harness/target/debug/oq3-run sema   (and `tree` for the node ranges)"})
     ninc = include_ranges(ctx, failures)
     return {"semantic_programs": len(progs), "semantic_programs_with_errors": nprog, "semantic_diagnostics_checked": nerr,
